@@ -3,7 +3,7 @@ import RedkaModel.Props.C14
 #print axioms Redka.Props.C14.every_command_writes_one_value
 #print axioms Redka.Props.C14.one_reply_partial
 #print axioms Redka.Props.C14.crash_only_in_parser
-#print axioms Redka.Props.C14.crash_only_numkeys_negative
+#print axioms Redka.Props.C14.no_request_crashes
 #print axioms Redka.Props.C14.parse_error_one_reply
 #print axioms Redka.Props.C14.in_multi_one_reply
 #print axioms Redka.Props.C14.in_multi_well_formed
@@ -13,5 +13,5 @@ import RedkaModel.Props.C14
 #print axioms Redka.Props.C14.pipelined_replies_on_the_wire
 #print axioms Redka.Props.C14.pipeline_replies
 #print axioms Redka.Props.C14.one_reply_bytes
-#print axioms Redka.Props.C14.negative_numkeys_crashes
+#print axioms Redka.Props.C14.negative_numkeys_is_refused
 #print axioms Redka.Props.C14.exec_reply_short
